@@ -215,7 +215,21 @@ impl Context {
         let state = self.states.pop().expect("States underflow");
         let removed_from_rc = self.decrease_ref_count(state.memory_block_index);
         if removed_from_rc {
-            self.memory_blocks.remove(state.memory_block_index);
+            if state.memory_block_index + 1 == self.memory_blocks.len() {
+                self.memory_blocks.pop();
+                // together with the released blocks below it
+                while self
+                    .memory_blocks
+                    .last()
+                    .is_some_and(MemoryBlock::is_released)
+                {
+                    self.memory_blocks.pop();
+                }
+            } else {
+                // the memory block of a STATIC function/sub lives above this one;
+                // the indices of the blocks must not change
+                self.memory_blocks[state.memory_block_index] = MemoryBlock::released();
+            }
         }
         state
     }
@@ -487,6 +501,19 @@ impl MemoryBlock {
             ref_count: 1,
             is_static,
         }
+    }
+
+    /// An empty memory block that keeps the place of one that is no longer used.
+    fn released() -> Self {
+        Self {
+            variables: Variables::new(),
+            ref_count: 0,
+            is_static: false,
+        }
+    }
+
+    fn is_released(&self) -> bool {
+        self.ref_count == 0
     }
 
     fn increase_ref_count(&mut self) {
